@@ -134,6 +134,17 @@ def location_spelling_bounded(ctx):
                                 "only_here": sorted(map(str, (run - results['plain']).keys()))[:6],
                                 "only_in_plain": sorted(map(str, (results['plain'] - run).keys()))[:6]})
             os.chdir(cwd0)
+        # (a'') project root AND target spelled relative to the working directory (run from the project's parent)
+        os.chdir(os.path.join(base, "plain"))
+        clear_ignore_parser_cache()
+        rel = _rel_key(Orchestrator(project_root=pathlib.Path("proj")).lint_directory(pathlib.Path("proj")), os.path.join(base, "plain", "proj"))
+        cases += 1
+        if rel != results["plain"]:
+            return bad("a relatively spelled project root (with equally spelled targets) gives different violations",
+                       {"cwd": "the project's parent", "project_root": "proj", "target": "proj",
+                        "only_relative": sorted(map(str, (rel - results['plain']).keys()))[:6],
+                        "only_absolute": sorted(map(str, (results['plain'] - rel).keys()))[:6]})
+        os.chdir(cwd0)
         # (d) one process, two projects: lint A (its .thailintignore says vendor/), then chdir into B and lint `.` with a
         # root-less Orchestrator() -- B must be judged by B's own patterns (none), exactly as a fresh process does
         import json
@@ -292,3 +303,92 @@ def path_keyed_tables(ctx):
         out.append(dict(name="custom:c09-path-keyed-tables/none", kind="frame", verdict="unknown", carries=True,
                         note="no path-keyed table found: the scan lost its subject"))
     return out
+
+
+# =================================================================== parallel worker runs from another working directory
+# (the checker's own workers are daemonic, so the process pool is exercised in a sub-process)
+_PARALLEL_FROM_ELSEWHERE = r'''
+import json, os, sys
+sys.path.insert(0, sys.argv[1])
+try:
+    from loguru import logger; logger.remove()
+except Exception:
+    pass
+from pathlib import Path
+from src.orchestrator.core import Orchestrator
+root, spell = sys.argv[2], sys.argv[3]
+root_arg = Path(root) if spell == "absolute" else Path(os.path.relpath(root))
+def key(vs):
+    return sorted([v.rule_id, os.path.relpath(os.path.realpath(v.file_path), os.path.realpath(root)), v.line] for v in vs)
+seq = key(Orchestrator(project_root=root_arg).lint_directory(root_arg, recursive=True))
+par = key(Orchestrator(project_root=root_arg).lint_directory_parallel(root_arg, recursive=True, max_workers=2))
+print(json.dumps({"sequential": seq, "parallel": par}))
+'''
+
+
+@custom("c09-parallel-cwd-bounded", props=["C09", "C14", "C04"])
+def parallel_cwd_bounded(ctx):
+    """BOUNDED: a project with a root-anchored repository ignore pattern and enough files to leave the sequential fallback
+    is linted with lint_directory_parallel (real process pool, max_workers=2) from a working directory that is NOT the
+    project root, with the root spelled absolutely and relatively; the workers must judge every file exactly like the
+    sequential run (same project root => same repository ignores, same project-relative paths)."""
+    import json
+    import os
+    import shutil
+    import subprocess
+    import sys
+    import tempfile
+    name = "custom:c09-parallel-cwd-bounded/workers-keep-the-project-root"
+    from pyvc import native as _native
+    _native._ensure_repo_on_path()
+    base = os.path.realpath(tempfile.mkdtemp(prefix="c09par_"))
+    cases = 0
+    try:
+        root = os.path.join(base, "work", "proj")
+        os.makedirs(root)
+        _make_project(root)
+        for i in range(6):
+            with open(os.path.join(root, "src", f"m{i}.py"), "w", encoding="utf-8") as fh:
+                fh.write(_BODY)
+            with open(os.path.join(root, "src", "generated", f"g{i}.py"), "w", encoding="utf-8") as fh:
+                fh.write(_BODY)
+        for cwd, spell in ((base, "absolute"), (os.path.join(base, "work"), "relative"), (root, "relative")):
+            pr = subprocess.run([sys.executable, "-c", _PARALLEL_FROM_ELSEWHERE, _native.repo_root(), root, spell],
+                                capture_output=True, text=True, timeout=300, cwd=cwd)
+            if pr.returncode != 0:
+                raise RuntimeError("sub-process failed: " + pr.stderr[-400:])
+            out = json.loads(pr.stdout.strip().splitlines()[-1])
+            cases += 2
+            gen_reported = [k for k in out["sequential"] if "generated" in k[1]]
+            if spell == "absolute" and (gen_reported or not out["sequential"]):
+                raise RuntimeError(f"scenario too weak: sequential baseline {out['sequential'][:4]}")
+            if out["parallel"] != out["sequential"]:
+                w = {"cwd": os.path.relpath(cwd, base) or ".", "root_spelling": spell,
+                     "parallel_only": [k for k in out["parallel"] if k not in out["sequential"]][:5],
+                     "sequential_only": [k for k in out["sequential"] if k not in out["parallel"]][:5]}
+                return [dict(name=name, kind="bounded", verdict="refuted", carries=True, tool="sub-process with a real process pool",
+                             cases=cases, budget="1 project, 3 working directories", witness_confirmed=True, witness=w,
+                             note=f"parallel workers judge the files differently from the sequential run: {w}"[:900])]
+    except BaseException as e:  # noqa
+        return [dict(name=name, kind="bounded", verdict="unknown", carries=True, tool="sub-process", cases=cases,
+                     note=f"harness error {e!r}"[:400])]
+    finally:
+        shutil.rmtree(base, ignore_errors=True)
+    return [dict(name=name, kind="bounded", verdict="passed", carries=True, tool="sub-process with a real process pool (max_workers=2)",
+                 budget="1 project (17 files) x 3 working directories / root spellings", cases=cases,
+                 note="parallel == sequential from every working directory")]
+
+
+# C09 / C14 / C04 depend on the worker building ITS orchestrator for the parent's project root: contracts/c07_parallel.py
+# states it (result == fresh_lint(file, root, config)); run that unit under these properties too
+try:
+    from pyvc import api as _api
+    import contracts.c07_parallel  # noqa: F401
+    for _t in ("src/orchestrator/core.py::_lint_file_worker",):
+        _c = _api.REGISTRY.get(_t)
+        if _c is not None:
+            for _p in ("C09", "C14", "C04"):
+                if _p not in _c.props:
+                    _c.props.append(_p)
+except BaseException:  # noqa
+    pass
